@@ -170,6 +170,17 @@ class _Result:
                 self._value = (False, ex)
             self._done = True
 
+    def start(self, callback=None, error_callback=None):
+        """Asynchronous submissions complete (in virtual time) before the
+        submitter looks again: the task runs now, callbacks fire now."""
+        self._force()
+        ok, v = self._value
+        if ok and callback is not None:
+            callback(v[0] if self._single else v)
+        if not ok and error_callback is not None:
+            error_callback(v)
+        return self
+
     def get(self, timeout=None):
         self._force()
         ok, v = self._value
@@ -356,8 +367,7 @@ class Pool:
                                    star=True)
             return self._flatten(results, [0])
 
-        r = _Result(compute, single=True)
-        return r
+        return _Result(compute, single=True).start(callback, error_callback)
 
     def map_async(self,
                   func,
@@ -366,7 +376,8 @@ class Pool:
                   callback=None,
                   error_callback=None):
         items = list(iterable)
-        return _Result(lambda: self.map(func, items, chunksize))
+        return _Result(lambda: self.map(func, items, chunksize)).start(
+            callback, error_callback)
 
     def starmap_async(self,
                       func,
@@ -375,7 +386,8 @@ class Pool:
                       callback=None,
                       error_callback=None):
         items = list(iterable)
-        return _Result(lambda: self.starmap(func, items, chunksize))
+        return _Result(lambda: self.starmap(func, items, chunksize)).start(
+            callback, error_callback)
 
     def close(self):
         self._closed = True
@@ -447,12 +459,26 @@ def get_start_method(allow_none=False):
 
 
 class _Context:
-    Pool = staticmethod(lambda *a, **k: Pool(*a, **k))
-    cpu_count = staticmethod(lambda: cpu_count())
+    """multiprocessing context: Pool and cpu_count are simulated, everything
+    else (Process, Queue, locks, ...) is the real context's."""
+    def __init__(self, method=None):
+        self._method = method
+
+    def Pool(self, *a, **k):
+        return Pool(*a, **k)
+
+    def cpu_count(self):
+        return cpu_count()
+
+    def get_start_method(self, allow_none=False):
+        return self._method or 'fork'
+
+    def __getattr__(self, name):
+        return getattr(_real_mp.get_context(self._method), name)
 
 
 def get_context(method=None):
-    return _Context()
+    return _Context(method)
 
 
 def build_module():
